@@ -8,7 +8,7 @@ preservation / Hermiticity / complete positivity.  Every map is handed to the ex
 (`c06_decide`: the Choi matrix over Q[i] is formed by the definition J = sum vec(A) vec(B)^dagger, and
 Tr_out J = 1, Tr_in J = 1, J = J^dagger are decided exactly; positive semidefiniteness is certified by a
 factor L with J - L L^dagger diagonally dominant, or refuted by an explicit vector v with v^dagger J v < -margin;
-rank and Choi's extremality criterion by exact elimination) and, rounded to doubles, to every toqito
+rank and Choi's extremality criterion by exact elimination, proved equal to Matrix.rank: C06.rankQ_eq_rank / choiRank_exact) and, rounded to doubles, to every toqito
 predicate in every list / Choi form its signature documents.  Verdicts must agree.
 
 Part B (constructors).  depolarizing, dephasing, reduction, choi, amplitude_damping, phase_damping, bitflip,
@@ -720,7 +720,7 @@ def check_map(ctx, tally, g: GT, seed, with_choi=True):
                                                                             "modified": guard.modified(), "presentation": describe(pobj)})
             if res[0] != "ok" or int(res[1]) != rep["rank"]:
                 ctx.violation(f"choi_rank[{form}] on a {g.kind} map {di}->{do}: {res}; exact rank over Q[i] is {rep['rank']}",
-                              {"function": "choi_rank", "form": form, "kind": g.kind, "case_seed": seed, "gen": g.gen, "impl": str(res), "model": rep["rank"], "theorem": "choiRank_le_kraus (rank by exact elimination)"})
+                              {"function": "choi_rank", "form": form, "kind": g.kind, "case_seed": seed, "gen": g.gen, "impl": str(res), "model": rep["rank"], "theorem": "choiRank_exact / rankQ_eq_rank (exact elimination = Matrix.rank), choiRank_le_kraus"})
         # --- extremality (channels only; Choi form only where the dimensions can be inferred; flat or nested lists)
         if cp == "yes" and tp == "yes" and form != "pairs" and (is_list or di == do):
             check_pred(ctx, tally, g, seed, form, is_extremal, (obj,), {}, "yes" if rep["extremal"] else "no", "Choi's extremality criterion (cited) on a basis of span{K_i}", ex)
